@@ -728,8 +728,11 @@ def reload_episodes(seed, count):
         W = WT[wt]
         t = Tr(r, wt)
         width = rwidth(r, W)
+        big = k % 5 == 4      # more than 256 bytes of full words (wide comparisons / copies take other paths there)
+        if big:
+            width = max(width, W // 4)
         t.ctor(kind=r.choice(["new", "new", "raw", "new_unaligned", "from_slice", "with_capacity"]), width=width,
-               n=r.choice([0, 1, rlen(r, W, width), rlen(r, W, width)]))
+               n=r.choice([0, 1, rlen(r, W, width), rlen(r, W, width)]) if not big else (2600 // max(1, width)) + r.randrange(40))
         if t.form == "vec":
             t.fill(distinct=r.random() < 0.5)
             if r.random() < 0.3:
